@@ -421,7 +421,18 @@ def r6_doc_sync(c, facts):
                     info = callee_of(t)
                     if fp and fp[0] != 'docs' and info and P.strip(info['def']).split('::')[-1] in ('push', 'insert', 'extend', 'push_back'):
                         remembers = True
-    publishes = closers and all(P.call_blocks(f, 'Sender::send') or P.call_blocks(f, 'Sender<T>::send') or any('send' == P.strip(callee_of(t)['def']).split('::')[-1] for b, t in f.calls() if callee_of(t)) for f in closers)
+    def sends(f, depth=0):
+        if any('send' == P.strip(callee_of(t)['def']).split('::')[-1] for b, t in f.calls() if callee_of(t)):
+            return True
+        if depth >= 2:
+            return False
+        for b, t in f.calls():
+            info = callee_of(t)
+            h = facts.fns.get((info or {}).get('resolved_id') or (info or {}).get('id')) if info else None
+            if h is not None and h.mir and h.crate == f.crate and h.id != f.id and sends(h, depth + 1):
+                return True
+        return False
+    publishes = closers and all(sends(f) for f in closers)
     c.floor(R, 'didClose handlers', len(closers), 1)
     if remembers or publishes:
         c.ok(R, {'didClose': 'the closed document is cleared (%s)' % ('remembered for the next reset' if remembers else 'an empty list is published by the handler')})
